@@ -207,7 +207,7 @@ def fam_derivative_at_late(number):
             if number:
                 pts = [p for p in g.get("points", {}).values()]
                 if len(pts) != 1:
-                    emit("one-point-built", ["C03"], z3.BoolVal(False), info=f"{len(pts)} points")
+                    emit("one-point-built", ["C03", "C14", "C17"], z3.BoolVal(False), info=f"{len(pts)} points")
                     return
                 pt = pts[0]
                 k = z3.Const("k!any", sym.Name)
